@@ -179,6 +179,15 @@ func VerifH_MuxGroupSerial() {
 	k1, k2 := verifHK(0), verifHK(symx.Concrete(symx.Int("k2"), 0, symx.Param("maxK2", 2))) // same key, same worker other key, other worker
 	s.has[int(k1)], s.val[int(k1)] = true, 7
 	ctx := context.Background()
+	var ctxB context.Context = ctx
+	deadB := symx.Bool("contextOfBHasEnded")
+	if deadB {
+		// caller B's context has already ended: it gets its context's error or the result; the
+		// operation may or may not be applied, the cache stays coherent either way
+		d := &verifMuxCtx{done: make(chan struct{})}
+		close(d.done)
+		ctxB = d
+	}
 	var r1, r2 interface{}
 	var e1, e2 error
 	t1 := symx.Go("callerA", func() {
@@ -187,11 +196,17 @@ func VerifH_MuxGroupSerial() {
 	t2 := symx.Go("callerB", func() {
 		switch symx.Concrete(symx.Int("opB"), 0, 2) {
 		case 0:
-			r2, e2 = g.DoGet(ctx, s.load(int(k2)), k2)
+			r2, e2 = g.DoGet(ctxB, s.load(int(k2)), k2)
 		case 1:
-			r2, e2 = g.DoDelete(ctx, s.del(int(k2)), k2)
+			r2, e2 = g.DoDelete(ctxB, s.del(int(k2)), k2)
+			if e2 == nil {
+				// a delete that reported success has removed the cached entry: a get that follows it (nothing
+				// re-creates the key in this program) must not be served the deleted value from the cache
+				_, eg := g.DoGet(ctx, s.load(int(k2)), k2)
+				symx.Assert(eg != nil, "after a successful delete the key is not served any more")
+			}
 		case 2:
-			r2, e2 = g.DoUpsertThenLoad(ctx, s.upsert(int(k2)), s.load(int(k2)), k2, 9)
+			r2, e2 = g.DoUpsertThenLoad(ctxB, s.upsert(int(k2)), s.load(int(k2)), k2, 9)
 		}
 	})
 	symx.WaitQuiescent()
